@@ -315,4 +315,343 @@ theorem binarizeGrammar_build (r : Reordering) (g : Grammar) :
   unfold binarizeGrammar reordered
   exact fold_build r g.rules {} []
 
+
+/-! ### heads of the additions -/
+
+theorem isBinSym_uniqueLabel (m : Nat) : isBinSym (uniqueLabel m) = true := by
+  simp [isBinSym, uniqueLabel, Gen.G_DEFAULT_BINLABEL]
+
+theorem uniqueLabel_inj {a b : Nat} (h : uniqueLabel a = uniqueLabel b) : a = b := by
+  unfold uniqueLabel at h
+  exact natToStr_injective (List.append_cancel_left (List.append_cancel_right h))
+
+/-- no symbol of the function looks like a binarization symbol -/
+def NBF (f : Func) : Prop := ∀ x ∈ f, isBinSym x = false
+
+theorem NBF_get (f : Func) (h : NBF f) (i : Nat) : isBinSym (f[i]?.getD []) = false := by
+  cases e : f[i]? with
+  | none => simp [isBinSym]
+  | some x => exact h x (List.mem_of_getElem? e)
+
+theorem NBF_ne (f : Func) (h : NBF f) (i m : Nat) : f[i]?.getD [] ≠ uniqueLabel m := by
+  intro e
+  have := NBF_get f h i
+  rw [e, isBinSym_uniqueLabel] at this
+  exact absurd this (by simp)
+
+theorem chainR_head_mem (func : Func) : ∀ (k i : Nat) (h : Str) (t : Lin) (s : Nat),
+    ∀ x ∈ chainR func k i h t s, x.1.head? = some h ∨ ∃ m, s < m ∧ m ≤ s + k ∧ x.1.head? = some (uniqueLabel m)
+  | 0, i, h, t, s, x, hx => by
+    simp only [chainR, List.mem_singleton] at hx
+    left; rw [hx]; rfl
+  | k + 1, i, h, t, s, x, hx => by
+    simp only [chainR, List.mem_cons] at hx
+    rcases hx with rfl | hx
+    · left; rfl
+    · right
+      rcases chainR_head_mem func k (i + 1) _ _ _ x hx with e | ⟨m, h1, h2, e⟩
+      · exact ⟨s + 1, by omega, by omega, e⟩
+      · exact ⟨m, by omega, by omega, e⟩
+
+theorem chainR_unique (func : Func) : ∀ (k i : Nat) (h : Str) (t : Lin) (s : Nat),
+    (∀ m, s < m → h ≠ uniqueLabel m) →
+    ∀ x ∈ chainR func k i h t s, ∀ y ∈ chainR func k i h t s, x.1.head? = y.1.head? → x = y
+  | 0, i, h, t, s, _, x, hx, y, hy, _ => by
+    simp only [chainR, List.mem_singleton] at hx hy
+    rw [hx, hy]
+  | k + 1, i, h, t, s, hh, x, hx, y, hy, e => by
+    simp only [chainR, List.mem_cons] at hx hy
+    have hrest : ∀ z ∈ chainR func k (i + 1) (uniqueLabel (s + 1)) (restLin t) (s + 1),
+        z.1.head? ≠ some h := by
+      intro z hz ez
+      rcases chainR_head_mem func k (i + 1) _ _ _ z hz with e' | ⟨m, h1, _, e'⟩
+      · rw [e'] at ez
+        exact hh (s + 1) (by omega) (Option.some.inj ez).symm
+      · rw [e'] at ez
+        exact hh m (by omega) (Option.some.inj ez).symm
+    rcases hx with rfl | hx <;> rcases hy with rfl | hy
+    · rfl
+    · exact absurd e.symm (hrest y hy)
+    · exact absurd e (hrest x hx)
+    · refine chainR_unique func k (i + 1) _ _ _ ?_ x hx y hy e
+      intro m hm e'
+      have := uniqueLabel_inj e'
+      omega
+
+/-- the labels used by a list of rules -/
+def total : List Rule → Nat
+  | [] => 0
+  | e :: R => nlab e.1 + total R
+
+theorem total_append : ∀ (R1 R2 : List Rule), total (R1 ++ R2) = total R1 + total R2
+  | [], R2 => by simp [total]
+  | e :: R1, R2 => by simp [total, total_append R1 R2]; omega
+
+theorem allAdds_append : ∀ (s : Nat) (R1 R2 : List Rule),
+    allAdds s (R1 ++ R2) = allAdds s R1 ++ allAdds (s + total R1) R2
+  | s, [], R2 => by simp [allAdds, total]
+  | s, e :: R1, R2 => by
+    simp only [List.cons_append, allAdds, total, allAdds_append _ R1 R2, List.append_assoc]
+    congr 3; omega
+
+/-- heads of the additions of one rule -/
+theorem ruleAdds_head (s : Nat) (f : Func) (l : Lin) (c : Nat) (hf : NBF f) :
+    ∀ x ∈ ruleAdds s f l c, (∀ m, x.1.head? ≠ some (uniqueLabel m)) ∨
+      ∃ m, s < m ∧ m ≤ s + nlab f ∧ x.1.head? = some (uniqueLabel m) := by
+  intro x hx
+  unfold ruleAdds at hx
+  split at hx
+  · simp only [List.mem_singleton] at hx
+    left
+    intro m e
+    rw [hx] at e
+    cases f with
+    | nil => simp at e
+    | cons a r =>
+      simp only [List.head?_cons, Option.some.injEq] at e
+      have := hf a (by simp)
+      rw [e, isBinSym_uniqueLabel] at this
+      exact absurd this (by simp)
+  · obtain ⟨y, hy, rfl⟩ := List.mem_map.1 hx
+    rcases chainR_head_mem f _ _ _ _ _ y hy with e | ⟨m, h1, h2, e⟩
+    · left
+      intro m e'
+      simp only [withCount] at e'
+      rw [e] at e'
+      exact NBF_ne f hf 0 m (Option.some.inj e')
+    · right; exact ⟨m, h1, h2, e⟩
+
+def NB (R : List Rule) : Prop := ∀ e ∈ R, NBF e.1
+
+theorem allAdds_head : ∀ (s : Nat) (R : List Rule), NB R → ∀ x ∈ allAdds s R, ∀ m,
+    x.1.head? = some (uniqueLabel m) → s < m ∧ m ≤ s + total R
+  | s, [], _, x, hx, m, _ => by simp [allAdds] at hx
+  | s, e :: R, hnb, x, hx, m, hm => by
+    simp only [allAdds, List.mem_append] at hx
+    simp only [total]
+    rcases hx with hx | hx
+    · rcases ruleAdds_head s e.1 e.2.1 e.2.2 (hnb e (by simp)) x hx with h | ⟨m', h1, h2, h3⟩
+      · exact absurd hm (h m)
+      · rw [h3] at hm
+        have := uniqueLabel_inj (Option.some.inj hm)
+        omega
+    · have := allAdds_head (s + nlab e.1) R (fun e he => hnb e (by simp [he])) x hx m hm
+      omega
+
+theorem allAdds_unique : ∀ (s : Nat) (R : List Rule), NB R → ∀ x ∈ allAdds s R, ∀ y ∈ allAdds s R, ∀ m,
+    x.1.head? = some (uniqueLabel m) → y.1.head? = some (uniqueLabel m) → x = y
+  | s, [], _, x, hx, _, _, _, _, _ => by simp [allAdds] at hx
+  | s, e :: R, hnb, x, hx, y, hy, m, hxm, hym => by
+    have hnbR : NB R := fun e he => hnb e (by simp [he])
+    simp only [allAdds, List.mem_append] at hx hy
+    have hfirst : ∀ z ∈ ruleAdds s e.1 e.2.1 e.2.2, z.1.head? = some (uniqueLabel m) → m ≤ s + nlab e.1 := by
+      intro z hz hzm
+      rcases ruleAdds_head s e.1 e.2.1 e.2.2 (hnb e (by simp)) z hz with h | ⟨m', _, h2, h3⟩
+      · exact absurd hzm (h m)
+      · rw [h3] at hzm
+        have := uniqueLabel_inj (Option.some.inj hzm)
+        omega
+    rcases hx with hx | hx <;> rcases hy with hy | hy
+    · unfold ruleAdds at hx hy
+      by_cases h3 : e.1.length ≤ 3
+      · simp only [h3, if_true, List.mem_singleton] at hx hy
+        rw [hx, hy]
+      · simp only [h3, if_false] at hx hy
+        obtain ⟨x', hx', rfl⟩ := List.mem_map.1 hx
+        obtain ⟨y', hy', rfl⟩ := List.mem_map.1 hy
+        have : x' = y' := by
+          refine chainR_unique e.1 _ _ _ _ _ ?_ x' hx' y' hy' ?_
+          · intro m' _; exact NBF_ne e.1 (hnb e (by simp)) 0 m'
+          · simp only [withCount] at hxm hym
+            rw [hxm, hym]
+        rw [this]
+    · have h1 := hfirst x hx hxm
+      have h2 := (allAdds_head _ R hnbR y hy m hym).1
+      omega
+    · have h1 := hfirst y hy hym
+      have h2 := (allAdds_head _ R hnbR x hx m hxm).1
+      omega
+    · exact allAdds_unique _ R hnbR x hx y hy m hxm hym
+
+
+/-! ### looking up the defining rule of a binarization symbol; following a chain -/
+
+theorem findDef_unique (A : List Rule) (y : Str) (x : Rule) (hx : x ∈ A) (hxy : x.1.head? = some y)
+    (huniq : ∀ z ∈ A, z.1.head? = some y → keyOf z = keyOf x) :
+    findDef (build A []) y = some (x.1, x.2.1) := by
+  unfold findDef
+  have hk : hasKey (build A []).rules x.1 x.2.1 := (hasKey_build A [] x.1 x.2.1).2 (Or.inl ⟨x.2.2, hx⟩)
+  obtain ⟨c, hc⟩ := hk
+  cases hf : (build A []).rules.find? (fun x => match x with | (f, _, _) => f.head? == some y) with
+  | none =>
+    rw [List.find?_eq_none] at hf
+    have := hf _ hc
+    simp [hxy] at this
+  | some z =>
+    have hz := List.mem_of_find?_eq_some hf
+    have hp := List.find?_some hf
+    obtain ⟨zf, zl, zc⟩ := z
+    simp only [beq_iff_eq] at hp
+    have hk2 : hasKey (build A []).rules zf zl := ⟨zc, hz⟩
+    rcases (hasKey_build A [] zf zl).1 hk2 with ⟨c', hc'⟩ | ⟨c', hc'⟩
+    · have := huniq _ hc' hp
+      simp only [keyOf, Prod.mk.injEq] at this
+      simp [this.1, this.2]
+    · simp [Grammar.rules] at hc'
+
+/-- first rule of a chain -/
+def chainTop (func : Func) (k i : Nat) (h : Str) (t : Lin) (s : Nat) : Func × Lin :=
+  match k with
+  | 0 => ([h, func[i]?.getD [], func[i + 1]?.getD []], t)
+  | _ + 1 => ([h, func[i]?.getD [], uniqueLabel (s + 1)], topLin t)
+
+theorem chainTop_mem (func : Func) (k i : Nat) (h : Str) (t : Lin) (s : Nat) :
+    chainTop func k i h t s ∈ chainR func k i h t s := by
+  cases k <;> simp [chainTop, chainR]
+
+theorem chainTop_head (func : Func) (k i : Nat) (h : Str) (t : Lin) (s : Nat) :
+    (chainTop func k i h t s).1.head? = some h := by
+  cases k <;> rfl
+
+theorem followChain_step (G : Grammar) (n : Nat) (a b y : Str) (l : Lin) (f' : Func) (l' : Lin)
+    (hy : isBinSym y = true) (hfd : findDef G y = some (f', l')) :
+    followChain G (n + 1) [a, b, y] l = ([a, b, y], l) :: followChain G n f' l' := by
+  simp [followChain, hy, hfd]
+
+theorem followChain_chainR (G : Grammar) (func : Func) (hnb : NBF func) :
+    ∀ (k i : Nat) (h : Str) (t : Lin) (s fuel : Nat), k ≤ fuel →
+    (∀ x ∈ chainR func k i h t s, ∀ m, x.1.head? = some (uniqueLabel m) → findDef G (uniqueLabel m) = some x) →
+    followChain G fuel (chainTop func k i h t s).1 (chainTop func k i h t s).2 = chainR func k i h t s
+  | 0, i, h, t, s, fuel, _, _ => by
+    cases fuel with
+    | zero => rfl
+    | succ n =>
+      simp only [chainTop, followChain, chainR, NBF_get func hnb (i + 1)]
+      rfl
+  | k + 1, i, h, t, s, 0, hk, _ => by omega
+  | k + 1, i, h, t, s, fuel + 1, hk, H => by
+    have hfd := H _ (List.mem_cons_of_mem _ (chainTop_mem func k (i + 1) (uniqueLabel (s + 1)) (restLin t) (s + 1)))
+      (s + 1) (chainTop_head ..)
+    have ih := followChain_chainR G func hnb k (i + 1) (uniqueLabel (s + 1)) (restLin t) (s + 1) fuel (by omega)
+      (fun x hx m hm => H x (List.mem_cons_of_mem _ hx) m hm)
+    show followChain G (fuel + 1) [h, func[i]?.getD [], uniqueLabel (s + 1)] (topLin t) =
+      ([h, func[i]?.getD [], uniqueLabel (s + 1)], topLin t) ::
+        chainR func k (i + 1) (uniqueLabel (s + 1)) (restLin t) (s + 1)
+    rw [followChain_step G fuel _ _ _ _ (chainTop func k (i + 1) (uniqueLabel (s + 1)) (restLin t) (s + 1)).1
+      (chainTop func k (i + 1) (uniqueLabel (s + 1)) (restLin t) (s + 1)).2 (isBinSym_uniqueLabel _) hfd, ih]
+
+/-- the list of heads of a chain -/
+theorem chainR_heads (func : Func) : ∀ (k i : Nat) (h : Str) (t : Lin) (s : Nat),
+    (chainR func k i h t s).map (·.1.head?) = some h :: (List.range' (s + 1) k).map (fun m => some (uniqueLabel m))
+  | 0, i, h, t, s => rfl
+  | k + 1, i, h, t, s => by
+    simp only [chainR, List.map_cons, List.range'_succ, chainR_heads func k]
+    rfl
+
+/-- enough fuel: all heads of a chain present in the rules are different -/
+theorem chain_fuel (rs : List Rule) (func : Func) (k i : Nat) (h : Str) (t : Lin) (s : Nat)
+    (hin : ∀ x ∈ chainR func k i h t s, hasKey rs x.1 x.2) : k ≤ rs.length := by
+  have hnd : ((List.range' (s + 1) k).map (fun m => some (uniqueLabel m))).Nodup := by
+    unfold List.Nodup
+    rw [List.pairwise_map]
+    refine (List.nodup_range' (s := s + 1) (n := k) (step := 1) (by omega)).imp ?_
+    intro a b hab e
+    exact hab (uniqueLabel_inj (Option.some.inj e))
+  have hsub : (List.range' (s + 1) k).map (fun m => some (uniqueLabel m)) ⊆ rs.map (·.1.head?) := by
+    intro a ha
+    have : a ∈ (chainR func k i h t s).map (·.1.head?) := by
+      rw [chainR_heads]; exact List.mem_cons_of_mem _ ha
+    obtain ⟨x, hx, rfl⟩ := List.mem_map.1 this
+    obtain ⟨c, hc⟩ := hin x hx
+    exact List.mem_map.2 ⟨_, hc, rfl⟩
+  have := hnd.length_le_of_subset hsub
+  simpa using this
+
+
+/-! ### fan-outs read off a linearization -/
+
+/-- number of variables of right-hand-side element `i` -/
+def occ (t : Lin) (i : Nat) : Nat := (t.flatten.map (·.1)).count (i : Int)
+
+theorem fanOut_get (t : Lin) (i : Nat) : (fanOut t)[i + 1]?.getD 0 = occ t i := by
+  unfold fanOut occ
+  have e : (t.flatMap fun arg => arg.map (·.1)) = t.flatten.map (·.1) := by
+    simp [List.flatMap_def, List.map_flatten]
+  simp only [e, List.getElem?_cons_succ]
+  generalize t.flatten.map (·.1) = refs
+  by_cases h : i < (refs.map fun r => (r + 1).toNat).foldl max 0
+  · simp [h]
+  · rw [List.getElem?_eq_none (by simpa using h)]
+    simp only [Option.getD_none]
+    symm
+    rw [List.count_eq_zero]
+    intro hm
+    apply h
+    have key : ∀ (l : List Nat) (a : Nat), a ≤ l.foldl max a ∧ ∀ x ∈ l, x ≤ l.foldl max a := by
+      intro l
+      induction l with
+      | nil => intro a; simp
+      | cons y ys ih =>
+        intro a
+        simp only [List.foldl_cons, List.mem_cons]
+        have := ih (max a y)
+        refine ⟨by omega, ?_⟩
+        rintro x (rfl | hx)
+        · omega
+        · exact this.2 x hx
+    have := (key (refs.map fun r => (r + 1).toNat) 0).2 (((i : Int) + 1).toNat) (List.mem_map.2 ⟨_, hm, rfl⟩)
+    omega
+
+theorem count_rest (i : Nat) : ∀ vs : List Var,
+    (((vs.filter fun v => v.1 != 0).map shift).map (·.1)).count (i : Int) =
+      (vs.map (·.1)).count ((i : Int) + 1)
+  | [] => rfl
+  | v :: vs => by
+    by_cases hz : v.1 = 0
+    · rw [List.filter_cons_of_neg (by simp [hz])]
+      rw [count_rest i vs, List.map_cons, List.count_cons]
+      have : ¬ v.1 = (i : Int) + 1 := by omega
+      simp [this]
+    · rw [List.filter_cons_of_pos (by simpa using hz)]
+      simp only [List.map_cons, List.count_cons, count_rest i vs, shift]
+      congr 1
+      by_cases e : v.1 = (i : Int) + 1
+      · have : v.1 - 1 = (i : Int) := by omega
+        simp [e]
+      · have : ¬ v.1 - 1 = (i : Int) := by omega
+        simp [e, this]
+
+theorem occ_restLin (t : Lin) (h : WF' t) (i : Nat) : occ (restLin t) i = occ t (i + 1) := by
+  unfold occ
+  rw [restLin_eq t h, flatMap_runsOf_flatten, count_rest]
+  have : ((i + 1 : Nat) : Int) = (i : Int) + 1 := by omega
+  rw [this]
+
+theorem count_topG : ∀ (gs : List Grp) (m : Nat), GOK gs →
+    ((topG gs m).1.map (·.1)).count (0 : Int) = ((ungrp gs).map (·.1)).count (0 : Int)
+  | [], _, _ => rfl
+  | .z v :: gs, m, h => by
+    simp only [topG, ungrp, List.map_cons, List.count_cons, count_topG gs m h.2]
+  | .run r :: gs, m, h => by
+    have hr : (r.map (·.1)).count (0 : Int) = 0 := by
+      rw [List.count_eq_zero]
+      intro hm
+      obtain ⟨v, hv, e⟩ := List.mem_map.1 hm
+      exact h.1.2 v hv e
+    simp only [topG, ungrp, List.map_cons, List.map_append, List.count_cons, List.count_append,
+      count_topG gs (m + 1) h.2, hr]
+    simp
+
+theorem count_topGs : ∀ (lin : Lin) (m : Nat),
+    ((topGs (lin.map grp) m).flatten.map (·.1)).count (0 : Int) = (lin.flatten.map (·.1)).count (0 : Int)
+  | [], _ => rfl
+  | a :: as, m => by
+    simp only [List.map_cons, topGs, List.flatten_cons, List.map_append, List.count_append,
+      count_topGs as, count_topG (grp a) m (GOK_grp a), ungrp_grp]
+
+theorem occ_topLin (t : Lin) (h : WF' t) : occ (topLin t) 0 = occ t 0 := by
+  unfold occ
+  rw [topLin_eq t h]
+  exact count_topGs t 0
+
 end TT.Lemmas.Unbin
